@@ -434,7 +434,60 @@ def check_fuzz(case):
     return FZ.run_campaign("fuzz_canon", case, PROPERTY)
 
 
+def check_signers(case):
+    """every signing entry point signs the bytes of THE canonical form (reference emitter), whatever path the value takes:
+    serialize_and_sign, sign_signable, and sign_all_in_repodata / sign-artifacts where the value is an artifact's record"""
+    import json
+    import tempfile
+    seed = keys.POOL[case["k"] % 16]
+    pub = keys.pub_hex(seed)
+    v = case["v"]
+    want = canon(v)
+    sig = S.serialize_and_sign(v, C.PrivateKey.from_bytes(seed))
+    if not keys.verify_raw(pub, want, bytes.fromhex(sig)):
+        raise Violation("serialize_and_sign signs other bytes than the canonical form of the value", bucket="signer: serialize_and_sign")
+    env = S.wrap_as_signable(v) if type(v) in (dict, list, str, int, float, bool, type(None), tuple) else None
+    if env is not None:
+        S.sign_signable(env, C.PrivateKey.from_bytes(seed))
+        if not keys.verify_raw(pub, want, bytes.fromhex(env["signatures"][pub]["signature"])):
+            raise Violation("sign_signable signs other bytes than the canonical form of the value", bucket="signer: sign_signable")
+    d = tempfile.mkdtemp(prefix="c07s-")
+    try:
+        fn = os.path.join(d, "repodata.json")
+        sec = ["packages", "packages.conda"][case["k"] % 2]
+        other = ["packages.conda", "packages"][case["k"] % 2]
+        doc = {"info": {}, sec: {"a-1.0-0.tar.bz2": {"name": "a"}, "art\u00e9fact-1.0-0.conda": v}, other: {"z-1.0-0.conda": v}}
+        with open(fn, "wb") as f:
+            f.write(canon(doc))
+        if case["k"] % 3 == 0:
+            import contextlib
+            import io
+            from conda_content_trust import cli as CLI
+            with open(os.path.join(d, "key"), "w") as f:
+                f.write(seed.hex())
+            with contextlib.redirect_stdout(io.StringIO()):
+                CLI.cli(["sign-artifacts", fn, os.path.join(d, "key")])
+        else:
+            S.sign_all_in_repodata(fn, seed.hex())
+        out = json.load(open(fn, "rb"))
+        for name in ("art\u00e9fact-1.0-0.conda", "z-1.0-0.conda"):
+            try:
+                sg = bytes.fromhex(out["signatures"][name][pub]["signature"])
+            except Exception:
+                raise Violation("sign_all_in_repodata filed no signature for an artifact", bucket="signer: sign_all_in_repodata")
+            if not keys.verify_raw(pub, want, sg):
+                raise Violation("sign_all_in_repodata / sign-artifacts signs other bytes than the canonical form of the artifact's record "
+                                "(features of the record: %s)" % sorted(G.features(v)), bucket="signer: sign_all_in_repodata")
+    finally:
+        shutil.rmtree(d, ignore_errors=True)
+    f_ = G.features(v)
+    return {"nontrivial": bool(f_), "labels": sorted(f_) or ["plain"]}
+
+
 UNITS = [
+    Unit("signers", check_signers, strategy=lambda: st.builds(lambda v, k: {"v": v, "k": k}, G.payloads, st.integers(0, 10 ** 6)),
+         quick=500, thorough=20000, doc="every signing entry point (serialize_and_sign, sign_signable, sign_all_in_repodata, sign-artifacts) "
+                                        "signs the reference canonical bytes of the value"),
     Unit("differential", check_diff, strategy=_value_with_perm, quick=1600, thorough=60000,
          essential=["non-ascii", "lone-surrogate", "non-bmp", "float", "unsorted-keys", "control"],
          doc="canonserialize == reference emitter; order independence; parse round trip; fixpoint"),
